@@ -545,6 +545,8 @@ func main() {
 			x.deadlineRaces(40)
 		case "ws":
 			x.wsProbes()
+		case "stall":
+			x.stallProbes()
 		}
 	} else {
 		nEnum, nRand, nFree, nTimer, nRace := 90, 1800, 250, 4, 12
@@ -578,10 +580,12 @@ func main() {
 		}
 		x.deadlineRaces(nRace)
 		x.wsProbes()
+		x.stallProbes()
 	}
 	res.Rule = "forced schedules over the yield points of session.go: a built-in corpus run in order; every schedule (up to a cap) of 24 small actor sets (5 of them on WebSocket-subprotocol sessions); " +
 		"random sets of 1-12 actors, a quarter of them on sessions negotiated by websocket.NewSession (Close x0-2, transmitters of every family and API, Serve with a peer script of elements/close/stream error/bad input, " +
-		"SetCloseDeadline, token-reader probe) under random schedules; real-timer scenarios; free-running concurrent scenarios (oracle only). " +
+		"SetCloseDeadline, token-reader probe) under random schedules; real-timer scenarios; free-running concurrent scenarios (oracle only); " +
+		"stall probes: the peer stops reading while Close / sendError / Serve's shutdown writes the closing element and Serve, SetCloseDeadline or State need the session state (oracle only; every forced scenario also asks, at each connection write, whether the state mutex is locked). " +
 		"distinct = hash of actors + realised decisions; non-trivial = the scenario contains a Close caller or Serve"
 	res.CaseFiles = append(res.CaseFiles, x.cf.Write(o.Out, 300)...)
 	res.Extra["model_cases"] = x.cf.Len()
